@@ -33,12 +33,13 @@ LEVEL_TEXT = (
     'operands feed the bias scale, that nothing is dropped on the way to the '
     'flatbuffer) and that the scalar formulas are the reference ones. Numeric '
     'equality with independently recomputed statistics is not decided.'
+    " Tables with exact rationals / exact small arrays: fixed-range statistics give back the fixed parameters, per-tensor / per-channel statistics along the kernel's dimension, end-to-end constant parameters."
 )
 LEVEL_NOTE = (
     'Trusted: oracles.py (quantization spec tables O1-O5), sa engines. Not '
     'decided: numeric equality of scales with recomputed statistics.'
 )
-TECHNIQUE = 'registry-resolved table extraction + constant folding + def-use origin (static)'
+TECHNIQUE = 'registry-resolved table extraction + constant folding + def-use origin + exact-rational / exact-array tables of the statistics and parameter code (abstract interpretation over a finite lattice) (static)'
 
 MMU, NMM = shared.MMU, shared.NMM
 
